@@ -117,11 +117,11 @@ U("replace_item_in_object", "cjson", "harness/replace_item_in_object.c", enforce
 
 # ---------------------------------------------------------------- cJSON.c : containers (skeleton units, children <= K)
 U("parse_array", "cjson", "harness/parse_array.c", enforce="parse_array", shape="S", bound="children <= 3", object_bits=10,
-  props=["C01", "C02", "C03", "C07", "C08", "C14", "C20"], covers=5, defs=["-DVF_CONTAINER_VIEWS"], unwindset=["parse_array.0:3"], bounded_loops=[r"parse_array.*\.unwind\."],
+  props=["C01", "C02", "C03", "C04", "C07", "C08", "C14", "C20"], covers=5, defs=["-DVF_CONTAINER_VIEWS"], unwindset=["parse_array.0:3"], bounded_loops=[r"parse_array.*\.unwind\."],
   replace=["cJSON_New_Item/cJSON_New_Item_cv", "parse_value/parse_value_cv", "cJSON_Delete/cJSON_Delete_chain_cv", "buffer_skip_whitespace/buffer_skip_whitespace_cv"], timeout=(900, 3000),
   note="element values arbitrary (recursive call replaced by its contract); only the element loop is cut at K")
 U("parse_object", "cjson", "harness/parse_object.c", enforce="parse_object", shape="S", bound="members <= 3", object_bits=10,
-  props=["C01", "C02", "C03", "C07", "C08", "C14", "C20"], covers=5, defs=["-DVF_CONTAINER_VIEWS"], unwindset=["parse_object.0:3"], bounded_loops=[r"parse_object.*\.unwind\."],
+  props=["C01", "C02", "C03", "C04", "C07", "C08", "C14", "C20"], covers=5, defs=["-DVF_CONTAINER_VIEWS"], unwindset=["parse_object.0:3"], bounded_loops=[r"parse_object.*\.unwind\."],
   replace=["cJSON_New_Item/cJSON_New_Item_cv", "parse_string/parse_string_cv", "parse_value/parse_value_cv", "cJSON_Delete/cJSON_Delete_chain_cv", "buffer_skip_whitespace/buffer_skip_whitespace_cv"], timeout=(900, 3000))
 U("cJSON_Delete", "cjson", "harness/cJSON_Delete.c", tiers=(), enforce="cJSON_Delete", rec=True, shape="S", bound="chain <= 2 nodes, children abstract", props=["C07", "C14", "C20"], covers=2,
   unwindset=["cJSON_Delete.0:3"], bounded_loops=[r"cJSON_Delete.*\.unwind\."], timeout=(900, 3000),
@@ -162,21 +162,81 @@ U("u_pointer_codec_b", "utils", "harness/u_pointer_codec_b.c", no_contract=True,
 # ---------------------------------------------------------------- cJSON.c : recursive tree functions on small symbolic trees (bounded)
 U("delete_b", "cjson", "harness/delete_b.c", no_contract=True, shape="B", bound="trees <= 4 nodes, depth <= 2", funcs=["cJSON_Delete"], props=["C07", "C14"], covers=3, unwind=5,
   timeout=(900, 3000), note="all flag/type combinations; real recursion unwound")
-U("duplicate_b", "cjson", "harness/duplicate_b.c", no_contract=True, shape="B", bound="trees <= 4 nodes, depth <= 2", funcs=["cJSON_Duplicate", "cJSON_Duplicate_rec"],
-  props=["C11", "C07", "C08", "C14"], covers=3, unwind=5, timeout=(900, 3000), defs=["-DVF_BUILTIN_STRINGS", "-DVF_BUILTIN_MEMCPY"],
+U("duplicate_b_00", "cjson", "harness/duplicate_b.c", no_contract=True, shape="B", bound="tree shape: 0 children, 0 grandchild", funcs=["cJSON_Duplicate", "cJSON_Duplicate_rec"],
+  props=["C11", "C07", "C08", "C14"], covers=3, unwind=6, unwindset=["cJSON_Delete.0:3", "cJSON_Delete:3", "cJSON_Duplicate_rec:4", "cJSON_Duplicate_rec.0:3", "vf_block.0:6"], timeout=(900, 3000), defs=["-DVF_BUILTIN_STRINGS", "-DVF_BUILTIN_MEMCPY", "-DT_SHAPE_CHILDREN=0", "-DT_SHAPE_GRAND=0", "-Dh_duplicate_b=h_duplicate_b_00"],
   note="all flag/type combinations, allocator may refuse every request; real recursion unwound")
-U("compare_b", "cjson", "harness/compare_b.c", no_contract=True, shape="B", bound="pairs of trees <= 3 nodes each, depth <= 1", funcs=["cJSON_Compare", "get_object_item", "case_insensitive_strcmp", "compare_double"],
-  props=["C12"], covers=4, unwind=5, timeout=(900, 3000), defs=["-DVF_BUILTIN_STRINGS"], note="model equality from the property text; symmetry, reflexivity, no modification")
-U("u_pointer_b", "both", "harness/u_pointer_b.c", no_contract=True, shape="B", bound="documents <= 4 nodes, pointers <= 5 bytes (quick) / 6 (thorough)", funcs=["get_item_from_pointer", "decode_array_index_from_pointer", "compare_pointers", "cJSONUtils_GetPointerCaseSensitive"],
-  props=["C15"], covers=4, tdefs={"quick": ["-DPT_N=5"], "thorough": ["-DPT_N=6"]}, tunwind={"quick": 8, "thorough": 9}, timeout=(900, 3000))
-U("u_findpointer_b", "both", "harness/u_findpointer_b.c", no_contract=True, shape="B", bound="documents <= 4 nodes, depth <= 2", funcs=["cJSONUtils_FindPointerFromObjectTo", "pointer_encoded_length", "encode_string_as_pointer", "get_item_from_pointer"],
-  props=["C15"], covers=3, unwind=10, timeout=(900, 3000))
-U("u_mergepatch_b", "both", "harness/u_mergepatch_b.c", no_contract=True, shape="B", bound="target and patch <= 3 nodes each, members are leaves", funcs=["merge_patch", "cJSONUtils_MergePatchCaseSensitive"],
-  props=["C18"], covers=3, unwind=6, timeout=(900, 3000), note="RFC 7396 pseudo-code as reference; real Duplicate/Delete/Detach/Add underneath")
+U("duplicate_b_11", "cjson", "harness/duplicate_b.c", no_contract=True, shape="B", bound="tree shape: 1 children, 1 grandchild", funcs=["cJSON_Duplicate", "cJSON_Duplicate_rec"],
+  props=["C11", "C07", "C08", "C14"], covers=3, unwind=6, unwindset=["cJSON_Delete.0:3", "cJSON_Delete:3", "cJSON_Duplicate_rec:4", "cJSON_Duplicate_rec.0:3", "vf_block.0:6"], timeout=(900, 3000), defs=["-DVF_BUILTIN_STRINGS", "-DVF_BUILTIN_MEMCPY", "-DT_SHAPE_CHILDREN=1", "-DT_SHAPE_GRAND=1", "-Dh_duplicate_b=h_duplicate_b_11"],
+  note="all flag/type combinations, allocator may refuse every request; real recursion unwound")
+U("duplicate_b_20", "cjson", "harness/duplicate_b.c", no_contract=True, shape="B", bound="tree shape: 2 children, 0 grandchild", funcs=["cJSON_Duplicate", "cJSON_Duplicate_rec"],
+  props=["C11", "C07", "C08", "C14"], covers=3, unwind=6, unwindset=["cJSON_Delete.0:3", "cJSON_Delete:3", "cJSON_Duplicate_rec:4", "cJSON_Duplicate_rec.0:3", "vf_block.0:6"], timeout=(900, 3000), defs=["-DVF_BUILTIN_STRINGS", "-DVF_BUILTIN_MEMCPY", "-DT_SHAPE_CHILDREN=2", "-DT_SHAPE_GRAND=0", "-Dh_duplicate_b=h_duplicate_b_20"],
+  note="all flag/type combinations, allocator may refuse every request; real recursion unwound")
+U("duplicate_b_21", "cjson", "harness/duplicate_b.c", no_contract=True, shape="B", bound="tree shape: 2 children, 1 grandchild", funcs=["cJSON_Duplicate", "cJSON_Duplicate_rec"],
+  props=["C11", "C07", "C08", "C14"], covers=3, unwind=6, unwindset=["cJSON_Delete.0:3", "cJSON_Delete:3", "cJSON_Duplicate_rec:4", "cJSON_Duplicate_rec.0:3", "vf_block.0:6"], timeout=(900, 3000), defs=["-DVF_BUILTIN_STRINGS", "-DVF_BUILTIN_MEMCPY", "-DT_SHAPE_CHILDREN=2", "-DT_SHAPE_GRAND=1", "-Dh_duplicate_b=h_duplicate_b_21"],
+  note="all flag/type combinations, allocator may refuse every request; real recursion unwound")
+U("compare_b_00", "cjson", "harness/compare_b.c", no_contract=True, shape="B", bound="first tree root + 0 children, second root + 0 children", funcs=["cJSON_Compare", "get_object_item", "case_insensitive_strcmp", "compare_double"],
+  props=["C12"], covers=4, unwind=5, unwindset=["cJSON_Compare:3"], timeout=(900, 3000), defs=["-DVF_BUILTIN_STRINGS", "-DCMP_NA=0", "-DCMP_NB=0", "-Dh_compare_b=h_compare_b_00"],
+  note="model equality from the property text; symmetry, reflexivity, no modification")
+U("compare_b_11", "cjson", "harness/compare_b.c", no_contract=True, shape="B", bound="first tree root + 1 children, second root + 1 children", funcs=["cJSON_Compare", "get_object_item", "case_insensitive_strcmp", "compare_double"],
+  props=["C12"], covers=4, unwind=5, unwindset=["cJSON_Compare:3"], timeout=(900, 3000), defs=["-DVF_BUILTIN_STRINGS", "-DCMP_NA=1", "-DCMP_NB=1", "-Dh_compare_b=h_compare_b_11"],
+  note="model equality from the property text; symmetry, reflexivity, no modification")
+U("compare_b_22", "cjson", "harness/compare_b.c", no_contract=True, shape="B", bound="first tree root + 2 children, second root + 2 children", funcs=["cJSON_Compare", "get_object_item", "case_insensitive_strcmp", "compare_double"],
+  props=["C12"], covers=4, unwind=5, unwindset=["cJSON_Compare:3"], timeout=(900, 3000), defs=["-DVF_BUILTIN_STRINGS", "-DCMP_NA=2", "-DCMP_NB=2", "-Dh_compare_b=h_compare_b_22"],
+  note="model equality from the property text; symmetry, reflexivity, no modification")
+U("compare_b_21", "cjson", "harness/compare_b.c", no_contract=True, shape="B", bound="first tree root + 2 children, second root + 1 children", funcs=["cJSON_Compare", "get_object_item", "case_insensitive_strcmp", "compare_double"],
+  props=["C12"], covers=4, unwind=5, unwindset=["cJSON_Compare:3"], timeout=(900, 3000), defs=["-DVF_BUILTIN_STRINGS", "-DCMP_NA=2", "-DCMP_NB=1", "-Dh_compare_b=h_compare_b_21"],
+  note="model equality from the property text; symmetry, reflexivity, no modification")
+U("u_pointer_b_00", "both", "harness/u_pointer_b.c", no_contract=True, shape="B", bound="document: root + 0 children + 0 grandchild; pointers <= 5 bytes (quick) / 6 (thorough)", funcs=["get_item_from_pointer", "decode_array_index_from_pointer", "compare_pointers", "cJSONUtils_GetPointerCaseSensitive"],
+  props=["C15"], covers=4, tdefs={"quick": ["-DPT_N=5"], "thorough": ["-DPT_N=6"]}, tunwind={"quick": 8, "thorough": 9}, timeout=(900, 3000), defs=["-DPT_NC=0", "-DPT_NG=0", "-Dh_u_pointer_b=h_u_pointer_b_00"])
+U("u_findpointer_b_00", "both", "harness/u_findpointer_b.c", no_contract=True, shape="B", bound="document: root + 0 children + 0 grandchild", funcs=["cJSONUtils_FindPointerFromObjectTo", "pointer_encoded_length", "encode_string_as_pointer", "get_item_from_pointer"],
+  props=["C15"], covers=3, unwind=7, unwindset=["cJSONUtils_FindPointerFromObjectTo:4", "cJSONUtils_FindPointerFromObjectTo.0:3", "vf_block.0:26", "vf_put_dec.0:3", "vf_put_dec.1:21", "vf_put_str.0:10", "strcat.0:8", "get_item_from_pointer.0:4", "utils_get_array_item.0:4", "decode_array_index_from_pointer.0:4"], timeout=(900, 3000), defs=["-DPT_NC=0", "-DPT_NG=0", "-Dh_u_findpointer_b=h_u_findpointer_b_00"])
+U("u_pointer_b_10", "both", "harness/u_pointer_b.c", no_contract=True, shape="B", bound="document: root + 1 children + 0 grandchild; pointers <= 5 bytes (quick) / 6 (thorough)", funcs=["get_item_from_pointer", "decode_array_index_from_pointer", "compare_pointers", "cJSONUtils_GetPointerCaseSensitive"],
+  props=["C15"], covers=4, tdefs={"quick": ["-DPT_N=5"], "thorough": ["-DPT_N=6"]}, tunwind={"quick": 8, "thorough": 9}, timeout=(900, 3000), defs=["-DPT_NC=1", "-DPT_NG=0", "-Dh_u_pointer_b=h_u_pointer_b_10"])
+U("u_findpointer_b_10", "both", "harness/u_findpointer_b.c", tiers=("thorough",), no_contract=True, shape="B", bound="document: root + 1 children + 0 grandchild", funcs=["cJSONUtils_FindPointerFromObjectTo", "pointer_encoded_length", "encode_string_as_pointer", "get_item_from_pointer"],
+  props=["C15"], covers=3, unwind=7, unwindset=["cJSONUtils_FindPointerFromObjectTo:4", "cJSONUtils_FindPointerFromObjectTo.0:3", "vf_block.0:26", "vf_put_dec.0:3", "vf_put_dec.1:21", "vf_put_str.0:10", "strcat.0:8", "get_item_from_pointer.0:4", "utils_get_array_item.0:4", "decode_array_index_from_pointer.0:4"], timeout=(900, 3000), defs=["-DPT_NC=1", "-DPT_NG=0", "-Dh_u_findpointer_b=h_u_findpointer_b_10"])
+U("u_pointer_b_20", "both", "harness/u_pointer_b.c", no_contract=True, shape="B", bound="document: root + 2 children + 0 grandchild; pointers <= 5 bytes (quick) / 6 (thorough)", funcs=["get_item_from_pointer", "decode_array_index_from_pointer", "compare_pointers", "cJSONUtils_GetPointerCaseSensitive"],
+  props=["C15"], covers=4, tdefs={"quick": ["-DPT_N=5"], "thorough": ["-DPT_N=6"]}, tunwind={"quick": 8, "thorough": 9}, timeout=(900, 3000), defs=["-DPT_NC=2", "-DPT_NG=0", "-Dh_u_pointer_b=h_u_pointer_b_20"])
+U("u_findpointer_b_20", "both", "harness/u_findpointer_b.c", tiers=("thorough",), no_contract=True, shape="B", bound="document: root + 2 children + 0 grandchild", funcs=["cJSONUtils_FindPointerFromObjectTo", "pointer_encoded_length", "encode_string_as_pointer", "get_item_from_pointer"],
+  props=["C15"], covers=3, unwind=7, unwindset=["cJSONUtils_FindPointerFromObjectTo:4", "cJSONUtils_FindPointerFromObjectTo.0:3", "vf_block.0:26", "vf_put_dec.0:3", "vf_put_dec.1:21", "vf_put_str.0:10", "strcat.0:8", "get_item_from_pointer.0:4", "utils_get_array_item.0:4", "decode_array_index_from_pointer.0:4"], timeout=(900, 3000), defs=["-DPT_NC=2", "-DPT_NG=0", "-Dh_u_findpointer_b=h_u_findpointer_b_20"])
+U("u_pointer_b_11", "both", "harness/u_pointer_b.c", no_contract=True, shape="B", bound="document: root + 1 children + 1 grandchild; pointers <= 5 bytes (quick) / 6 (thorough)", funcs=["get_item_from_pointer", "decode_array_index_from_pointer", "compare_pointers", "cJSONUtils_GetPointerCaseSensitive"],
+  props=["C15"], covers=4, tdefs={"quick": ["-DPT_N=5"], "thorough": ["-DPT_N=6"]}, tunwind={"quick": 8, "thorough": 9}, timeout=(900, 3000), defs=["-DPT_NC=1", "-DPT_NG=1", "-Dh_u_pointer_b=h_u_pointer_b_11"])
+U("u_findpointer_b_11", "both", "harness/u_findpointer_b.c", tiers=("thorough",), no_contract=True, shape="B", bound="document: root + 1 children + 1 grandchild", funcs=["cJSONUtils_FindPointerFromObjectTo", "pointer_encoded_length", "encode_string_as_pointer", "get_item_from_pointer"],
+  props=["C15"], covers=3, unwind=7, unwindset=["cJSONUtils_FindPointerFromObjectTo:4", "cJSONUtils_FindPointerFromObjectTo.0:3", "vf_block.0:26", "vf_put_dec.0:3", "vf_put_dec.1:21", "vf_put_str.0:10", "strcat.0:8", "get_item_from_pointer.0:4", "utils_get_array_item.0:4", "decode_array_index_from_pointer.0:4"], timeout=(900, 3000), defs=["-DPT_NC=1", "-DPT_NG=1", "-Dh_u_findpointer_b=h_u_findpointer_b_11"])
+U("u_pointer_b_21", "both", "harness/u_pointer_b.c", no_contract=True, shape="B", bound="document: root + 2 children + 1 grandchild; pointers <= 5 bytes (quick) / 6 (thorough)", funcs=["get_item_from_pointer", "decode_array_index_from_pointer", "compare_pointers", "cJSONUtils_GetPointerCaseSensitive"],
+  props=["C15"], covers=4, tdefs={"quick": ["-DPT_N=5"], "thorough": ["-DPT_N=6"]}, tunwind={"quick": 8, "thorough": 9}, timeout=(900, 3000), defs=["-DPT_NC=2", "-DPT_NG=1", "-Dh_u_pointer_b=h_u_pointer_b_21"])
+U("u_findpointer_b_21", "both", "harness/u_findpointer_b.c", tiers=("thorough",), no_contract=True, shape="B", bound="document: root + 2 children + 1 grandchild", funcs=["cJSONUtils_FindPointerFromObjectTo", "pointer_encoded_length", "encode_string_as_pointer", "get_item_from_pointer"],
+  props=["C15"], covers=3, unwind=7, unwindset=["cJSONUtils_FindPointerFromObjectTo:4", "cJSONUtils_FindPointerFromObjectTo.0:3", "vf_block.0:26", "vf_put_dec.0:3", "vf_put_dec.1:21", "vf_put_str.0:10", "strcat.0:8", "get_item_from_pointer.0:4", "utils_get_array_item.0:4", "decode_array_index_from_pointer.0:4"], timeout=(900, 3000), defs=["-DPT_NC=2", "-DPT_NG=1", "-Dh_u_findpointer_b=h_u_findpointer_b_21"])
+U("u_mergepatch_b_00", "both", "harness/u_mergepatch_b.c", no_contract=True, shape="B", bound="target: root + 0 members, patch: root + 0 members (members are leaves)", funcs=["merge_patch", "cJSONUtils_MergePatchCaseSensitive"],
+  props=["C18"], covers=3, unwind=6, unwindset=["merge_patch:3", "merge_patch.0:3", "cJSON_Delete:3", "cJSON_Delete.0:3", "cJSON_Duplicate_rec:3", "cJSON_Duplicate_rec.0:3", "vf_block.0:6"], timeout=(900, 3000),
+  defs=["-DMP_NT=0", "-DMP_NP=0", "-Dh_u_mergepatch_b=h_u_mergepatch_b_00"], note="RFC 7396 pseudo-code as reference; real Duplicate/Delete/Detach/Add underneath")
+U("u_mergepatch_b_02", "both", "harness/u_mergepatch_b.c", mem=30, no_contract=True, shape="B", bound="target: root + 0 members, patch: root + 2 members (members are leaves)", funcs=["merge_patch", "cJSONUtils_MergePatchCaseSensitive"],
+  props=["C18"], covers=3, unwind=6, unwindset=["merge_patch:3", "merge_patch.0:3", "cJSON_Delete:3", "cJSON_Delete.0:3", "cJSON_Duplicate_rec:3", "cJSON_Duplicate_rec.0:3", "vf_block.0:6"], timeout=(900, 3000),
+  defs=["-DMP_NT=0", "-DMP_NP=2", "-Dh_u_mergepatch_b=h_u_mergepatch_b_02"], note="RFC 7396 pseudo-code as reference; real Duplicate/Delete/Detach/Add underneath")
+U("u_mergepatch_b_20", "both", "harness/u_mergepatch_b.c", no_contract=True, shape="B", bound="target: root + 2 members, patch: root + 0 members (members are leaves)", funcs=["merge_patch", "cJSONUtils_MergePatchCaseSensitive"],
+  props=["C18"], covers=3, unwind=6, unwindset=["merge_patch:3", "merge_patch.0:3", "cJSON_Delete:3", "cJSON_Delete.0:3", "cJSON_Duplicate_rec:3", "cJSON_Duplicate_rec.0:3", "vf_block.0:6"], timeout=(900, 3000),
+  defs=["-DMP_NT=2", "-DMP_NP=0", "-Dh_u_mergepatch_b=h_u_mergepatch_b_20"], note="RFC 7396 pseudo-code as reference; real Duplicate/Delete/Detach/Add underneath")
+U("u_mergepatch_b_22", "both", "harness/u_mergepatch_b.c", tiers=("thorough",), no_contract=True, shape="B", bound="target: root + 2 members, patch: root + 2 members (members are leaves)", funcs=["merge_patch", "cJSONUtils_MergePatchCaseSensitive"],
+  props=["C18"], covers=3, unwind=6, unwindset=["merge_patch:3", "merge_patch.0:3", "cJSON_Delete:3", "cJSON_Delete.0:3", "cJSON_Duplicate_rec:3", "cJSON_Duplicate_rec.0:3", "vf_block.0:6"], timeout=(900, 3000),
+  defs=["-DMP_NT=2", "-DMP_NP=2", "-Dh_u_mergepatch_b=h_u_mergepatch_b_22"], note="RFC 7396 pseudo-code as reference; real Duplicate/Delete/Detach/Add underneath")
+U("u_mergepatch_b_12", "both", "harness/u_mergepatch_b.c", tiers=("thorough",), no_contract=True, shape="B", bound="target: root + 1 members, patch: root + 2 members (members are leaves)", funcs=["merge_patch", "cJSONUtils_MergePatchCaseSensitive"],
+  props=["C18"], covers=3, unwind=6, unwindset=["merge_patch:3", "merge_patch.0:3", "cJSON_Delete:3", "cJSON_Delete.0:3", "cJSON_Duplicate_rec:3", "cJSON_Duplicate_rec.0:3", "vf_block.0:6"], timeout=(900, 3000),
+  defs=["-DMP_NT=1", "-DMP_NP=2", "-Dh_u_mergepatch_b=h_u_mergepatch_b_12"], note="RFC 7396 pseudo-code as reference; real Duplicate/Delete/Detach/Add underneath")
 U("lookups_b", "cjson", "harness/lookups_b.c", no_contract=True, shape="B", bound="containers <= 4 children, 1-byte keys", funcs=["cJSON_GetArraySize", "get_array_item", "cJSON_GetArrayItem", "get_object_item", "case_insensitive_strcmp", "cJSON_GetObjectItem", "cJSON_GetObjectItemCaseSensitive", "cJSON_HasObjectItem"],
   props=["C06"], covers=3, unwind=7, timeout=(900, 3000))
-U("create_arrays_b", "cjson", "harness/create_arrays_b.c", no_contract=True, shape="B", bound="count <= 3", funcs=["cJSON_CreateIntArray", "cJSON_CreateFloatArray", "cJSON_CreateDoubleArray", "cJSON_CreateStringArray"],
-  props=["C06", "C07", "C08"], covers=4, unwind=6, timeout=(900, 3000))
+U("create_arrays_b_0m1", "cjson", "harness/create_arrays_b.c", no_contract=True, shape="B", bound="constructor 0 (0 int, 1 float, 2 double, 3 string), count -1", funcs=["cJSON_CreateIntArray", "cJSON_CreateFloatArray", "cJSON_CreateDoubleArray", "cJSON_CreateStringArray"],
+  props=["C06", "C07", "C08"], covers=2, unwind=6, unwindset=["cJSON_Delete:3", "cJSON_Delete.0:5", "vf_block.0:6"], timeout=(900, 3000), defs=["-DCA_COUNT=(-1)", "-DCA_WHICH=0", "-Dh_create_arrays_b=h_create_arrays_b_0m1"])
+U("create_arrays_b_00", "cjson", "harness/create_arrays_b.c", no_contract=True, shape="B", bound="constructor 0 (0 int, 1 float, 2 double, 3 string), count 0", funcs=["cJSON_CreateIntArray", "cJSON_CreateFloatArray", "cJSON_CreateDoubleArray", "cJSON_CreateStringArray"],
+  props=["C06", "C07", "C08"], covers=2, unwind=6, unwindset=["cJSON_Delete:3", "cJSON_Delete.0:5", "vf_block.0:6"], timeout=(900, 3000), defs=["-DCA_COUNT=(0)", "-DCA_WHICH=0", "-Dh_create_arrays_b=h_create_arrays_b_00"])
+U("create_arrays_b_03", "cjson", "harness/create_arrays_b.c", no_contract=True, shape="B", bound="constructor 0 (0 int, 1 float, 2 double, 3 string), count 3", funcs=["cJSON_CreateIntArray", "cJSON_CreateFloatArray", "cJSON_CreateDoubleArray", "cJSON_CreateStringArray"],
+  props=["C06", "C07", "C08"], covers=2, unwind=6, unwindset=["cJSON_Delete:3", "cJSON_Delete.0:5", "vf_block.0:6"], timeout=(900, 3000), defs=["-DCA_COUNT=(3)", "-DCA_WHICH=0", "-Dh_create_arrays_b=h_create_arrays_b_03"])
+U("create_arrays_b_12", "cjson", "harness/create_arrays_b.c", no_contract=True, shape="B", bound="constructor 1 (0 int, 1 float, 2 double, 3 string), count 2", funcs=["cJSON_CreateIntArray", "cJSON_CreateFloatArray", "cJSON_CreateDoubleArray", "cJSON_CreateStringArray"],
+  props=["C06", "C07", "C08"], covers=2, unwind=6, unwindset=["cJSON_Delete:3", "cJSON_Delete.0:5", "vf_block.0:6"], timeout=(900, 3000), defs=["-DCA_COUNT=(2)", "-DCA_WHICH=1", "-Dh_create_arrays_b=h_create_arrays_b_12"])
+U("create_arrays_b_22", "cjson", "harness/create_arrays_b.c", no_contract=True, shape="B", bound="constructor 2 (0 int, 1 float, 2 double, 3 string), count 2", funcs=["cJSON_CreateIntArray", "cJSON_CreateFloatArray", "cJSON_CreateDoubleArray", "cJSON_CreateStringArray"],
+  props=["C06", "C07", "C08"], covers=2, unwind=6, unwindset=["cJSON_Delete:3", "cJSON_Delete.0:5", "vf_block.0:6"], timeout=(900, 3000), defs=["-DCA_COUNT=(2)", "-DCA_WHICH=2", "-Dh_create_arrays_b=h_create_arrays_b_22"])
+U("create_arrays_b_32", "cjson", "harness/create_arrays_b.c", no_contract=True, shape="B", bound="constructor 3 (0 int, 1 float, 2 double, 3 string), count 2", funcs=["cJSON_CreateIntArray", "cJSON_CreateFloatArray", "cJSON_CreateDoubleArray", "cJSON_CreateStringArray"],
+  props=["C06", "C07", "C08"], covers=2, unwind=6, unwindset=["cJSON_Delete:3", "cJSON_Delete.0:5", "vf_block.0:6"], timeout=(900, 3000), defs=["-DCA_COUNT=(2)", "-DCA_WHICH=3", "-Dh_create_arrays_b=h_create_arrays_b_32"])
+U("create_arrays_b_33", "cjson", "harness/create_arrays_b.c", no_contract=True, shape="B", bound="constructor 3 (0 int, 1 float, 2 double, 3 string), count 3", funcs=["cJSON_CreateIntArray", "cJSON_CreateFloatArray", "cJSON_CreateDoubleArray", "cJSON_CreateStringArray"],
+  props=["C06", "C07", "C08"], covers=2, unwind=6, unwindset=["cJSON_Delete:3", "cJSON_Delete.0:5", "vf_block.0:6"], timeout=(900, 3000), defs=["-DCA_COUNT=(3)", "-DCA_WHICH=3", "-Dh_create_arrays_b=h_create_arrays_b_33"])
 U("setvaluestring_b", "cjson", "harness/setvaluestring_b.c", no_contract=True, shape="B", bound="old string <= 3 bytes, new string <= 4 bytes", funcs=["cJSON_SetValuestring"],
   props=["C06", "C07", "C08"], covers=4, unwind=8, timeout=(900, 3000), ignore_desc=[r"same object violation"],
   note="the overlap test in cJSON_SetValuestring compares pointers into unrelated objects (flagged by CBMC as 'same object violation'; benign on flat address spaces, not a claim of any property here)")
